@@ -1,6 +1,7 @@
 import Lean.Data.Json
 import MW.Chain.World
 import MW.Proto.Msgs
+import MW.Treasury.Model
 /-!
 # JSON glue of the model driver: serde forms of the contract messages in, canonical results out.
 Not part of the verified model; part of the correspondence machinery (trusted base).
@@ -344,5 +345,69 @@ def jSudo : SudoMsg → Json
       ("channel", .str ch), ("sequence", jNat seq), ("ack", .str ""), ("success", .bool ok)])])]
   | .timeout ch seq => Json.mkObj [("ibc_lifecycle_complete", Json.mkObj [("ibc_timeout", Json.mkObj [
       ("channel", .str ch), ("sequence", jNat seq)])])]
+
+/-! ## treasury -/
+open MW.Treasury in
+def parseRoute (j : Json) : P SwapRoute := do
+  onlyFields j ["pool_id", "token_in_denom", "token_out_denom"]
+  pure { poolId := ← (← reqField j "pool_id") |> asU64
+         tokenIn := ← (← reqField j "token_in_denom") |> asStr
+         tokenOut := ← (← reqField j "token_out_denom") |> asStr }
+
+open MW.Treasury in
+def parseRoutes (j : Json) : P (List SwapRoute) := do
+  (← asArr j).toList.mapM parseRoute
+
+open MW.Treasury in
+def parseRoutesList (j : Json) : P (List (List SwapRoute)) := do
+  (← asArr j).toList.mapM parseRoutes
+
+def parseCoinStrict (j : Json) : P Coin := do
+  onlyFields j ["denom", "amount"]
+  parseCoin j
+
+open MW.Treasury in
+def parseTInstantiate (j : Json) : P TInstantiate := do
+  onlyFields j ["admin", "trader", "allowed_swap_routes"]
+  pure { admin := ← optMap j "admin" asStr, trader := ← optMap j "trader" asStr,
+         routes := ← (← reqField j "allowed_swap_routes") |> parseRoutesList }
+
+open MW.Treasury in
+def parseTExec (j : Json) : P TExec := do
+  let (k, v) ← variant j
+  match k with
+  | "transfer_ownership" => do onlyFields v ["new_owner"]; pure (.transferOwnership (← (← reqField v "new_owner") |> asStr))
+  | "accept_ownership" => do onlyFields v []; pure .acceptOwnership
+  | "revoke_ownership_transfer" => do onlyFields v []; pure .revokeOwnershipTransfer
+  | "spend_funds" => do
+    onlyFields v ["amount", "receiver", "channel_id"]
+    pure (.spendFunds (← (← reqField v "amount") |> parseCoinStrict) (← (← reqField v "receiver") |> asStr)
+      (← optMap v "channel_id" asStr))
+  | "swap_exact_amount_in" => do
+    onlyFields v ["routes", "token_in", "token_out_min_amount"]
+    pure (.swapIn (← (← reqField v "routes") |> parseRoutes) (← (← reqField v "token_in") |> parseCoinStrict)
+      (← (← reqField v "token_out_min_amount") |> asU128))
+  | "swap_exact_amount_out" => do
+    onlyFields v ["routes", "token_out", "token_in_max_amount"]
+    pure (.swapOut (← (← reqField v "routes") |> parseRoutes) (← (← reqField v "token_out") |> parseCoinStrict)
+      (← (← reqField v "token_in_max_amount") |> asU128))
+  | "update_config" => do
+    onlyFields v ["trader", "allowed_swap_routes"]
+    pure (.updateConfig (← optMap v "trader" asStr) (← optMap v "allowed_swap_routes" parseRoutesList))
+  | _ => throw s!"unknown variant {k}"
+
+open MW.Treasury in
+def jRoute (r : SwapRoute) : Json :=
+  Json.mkObj [("pool_id", jNat r.poolId), ("token_in_denom", .str r.tokenIn), ("token_out_denom", .str r.tokenOut)]
+
+open MW.Treasury in
+def dumpTreasury (s : TState) : Json :=
+  let cfgJ : Json := match queryConfig s with
+    | .ok (a, t, rs) => Json.mkObj [("ok", Json.mkObj [("admin", .str a), ("trader", .str t),
+        ("allowed_swap_routes", Json.arr (rs.map fun r => Json.arr (r.map jRoute).toArray).toArray)])]
+    | .error e => jErr e
+  Json.mkObj [("config", cfgJ), ("admin", jOpt Json.str s.own.admin), ("pending_owner", jOpt Json.str s.own.pending),
+              ("owner_min_time", jOpt jStrNat s.own.minTime),
+              ("version", Json.mkObj [("contract", .str s.version.1), ("version", .str s.version.2)])]
 
 end Driver
